@@ -375,7 +375,8 @@ def evaluate__cast_expressions(self: XPathToken, context: ta.ContextType = None)
         if self.symbol != 'cast':
             return False
         raise self.error('XPTY0004', "more than one value in expression")
-    elif not result:
+    elif not result or self.data_value(result[0]) is None:
+        # an empty sequence, also after atomization (the typed value of a nilled element)
         if self[1].occurrence == '?':
             return [] if self.symbol == 'cast' else True
         elif self.symbol != 'cast':
